@@ -294,10 +294,8 @@ impl Machine {
         match s {
             S::Expr(e) => self.expr(e, env),
             S::Let(name, rhs) => {
-                if let S::Expr(E::Lambda(params, ret, body)) = &**rhs {
-                    // `name := (..) -> T {..}` is a function declaration: the body sees its own name
-                    return self.declare(name, params, ret, body, env);
-                }
+                // (a let-bound function literal is printed in parentheses: a plain binding of an anonymous function; the
+                // declaration form `name := (..) -> T {..}`, whose body sees its own name, is S::FnDecl)
                 let v = self.scoped(rhs, env)?;
                 *env = bind(env, name, v.clone());
                 Ok(v)
